@@ -55,6 +55,9 @@ class _Ctx:
         self.update_calls = 0
         self.update_cap = None
         self.cand_calls = 0
+        self.added = set()
+        self.ignored_mols = set()
+        self.touched = set()
         self.cand_cap = None
         self.post_tape_updates = 0
         self.building = False
@@ -385,7 +388,11 @@ def _capture_start(ctx, eng, molecules, topology, box):
     sizes = {}
     node_type = {}
     model_sizes = {}
+    ign = set(ctx.job["opts"].get("ignore") or [])
+    ctx.ignored_mols = {m for m, mol in enumerate(molecules) if mol.mol_name in ign}
     for m, mol in enumerate(molecules):
+        if m in ctx.ignored_mols:
+            continue
         for n in mol.nodes:
             tname = mol.nodes[n].get("template", mol.nodes[n]["resname"])
             node_type[(m, n)] = tname
@@ -393,6 +400,8 @@ def _capture_start(ctx, eng, molecules, topology, box):
             ctx.build[(m, n)] = bool(mol.nodes[n].get("build", True))
     ctx.model = EngineModel(np.array(box, dtype=float), model_sizes, node_type)
     for m, mol in enumerate(molecules):
+        if m in ctx.ignored_mols:
+            continue
         for n in mol.nodes:
             if "position" in mol.nodes[n]:
                 p = np.array(mol.nodes[n]["position"], dtype=float)
@@ -405,7 +414,7 @@ def _capture_start(ctx, eng, molecules, topology, box):
     ctx.cand_cap = 400 * nres + 150 * ntape + 5000
     # full-build molecules with all positions are skipped -> accepted from the start
     for m, mol in enumerate(molecules):
-        if all("position" in mol.nodes[n] for n in mol.nodes):
+        if m not in ctx.ignored_mols and all("position" in mol.nodes[n] for n in mol.nodes):
             ctx.accepted.add(m)
     # neighbour sets (within one residue-graph edge, the node itself included)
     for m, mol in enumerate(molecules):
@@ -481,6 +490,8 @@ def _oracle_grow(ctx, proc, cur, prev):
 def _oracle_add(ctx, xyz, m, node, start):
     rec = ctx.rec
     rec.emit("add", mol=m, node=node, start=int(start), xyz=xyz)
+    ctx.added.add((m, node))
+    ctx.touched.add((m, node))
     model = ctx.model
     box = model.box
     if (m, node) in model.pos:
@@ -565,6 +576,7 @@ def _check_grid(ctx, xyz, m, node):
 
 def _oracle_remove(ctx, m, nodes):
     ctx.rec.emit("remove", mol=m, nodes=list(nodes))
+    ctx.touched.update((m, n) for n in nodes)
     if m in ctx.accepted:
         ctx.fail("C17", "accepted.moved", f"positions of accepted molecule {m} are removed")
     sup = [n for n in nodes if (m, n) in ctx.supplied and (m, n) in ctx.model.pos]
@@ -629,6 +641,8 @@ def _oracle_compose_end(ctx, bs, molecules):
     _shadow_all(ctx)
     # (C17 iv) every residue of every built molecule positioned exactly once; model, engine, attribute agree
     for m, mol in enumerate(ctx.eng_molecules):
+        if m in ctx.ignored_mols:
+            continue
         for n in mol.nodes:
             mp = ctx.model.pos.get((m, n))
             if mp is None:
